@@ -1,7 +1,7 @@
 (* Extraction of the executable model to OCaml.  ExtrOcamlBasic only: bool, option, unit, list, prod,
    sumbool, sumor are mapped to OCaml's types; nat, N, positive, Z stay Coq datatypes. *)
 From Coq Require Import Extraction ExtrOcamlBasic.
-From LolModel Require Import Policy Rewriter TextDecoder.
+From LolModel Require Import Policy Rewriter TextDecoder StreamSink.
 From LolSpec Require Import CssSem.
 Extraction Language OCaml.
-Extraction "model.ml" l1_case l2_case css_expected scope_expected utf8_node_calls.
+Extraction "model.ml" l1_case l2_case css_expected scope_expected utf8_node_calls sink_run.
